@@ -257,6 +257,27 @@ def check(recipe) -> list[Fail]:
                     cf.atoms[j].label = f"W{step}"
                     if ens.atoms[j].label != f"W{step}":
                         return [Fail("write-through-conformer-atom-not-visible-in-ensemble", f"step {step}")]
+            elif name == "oob_write":
+                # an integer locator outside [-n, n) names no conformer: whatever the library does with it (refuse at once, hand out
+                # a handle that refuses every access), a write through it never lands in one of the n rows that exist
+                if na == 0:
+                    continue
+                idx = [nc, nc + 1, nc + 2, -nc - 1, -nc - 2, 2 * nc + 1][op[1] % 6]
+                try:
+                    bad = ens[idx]
+                    bad.coords[op[2] % na] = [9.25, -9.25, 9.25]
+                except Exception:
+                    pass
+                try:
+                    bad = ens[idx]
+                    bad.coords = np.full((na, 3), -3.75)
+                except Exception:
+                    pass
+                try:
+                    bad = ens[idx]
+                    bad.atomic_charges[op[2] % na] = 4.5
+                except Exception:
+                    pass
             elif name == "orphan":
                 # conformers that outlive every other reference to their ensemble (slice of a temporary copy, unpickled conformer):
                 # they keep working and show the rows they were taken from
@@ -458,6 +479,7 @@ def strat(tier):
         st.tuples(st.just("iterate"), st.sampled_from(["plain", "nested", "interleaved", "zip", "break_then_full", "collect"])).map(list),
         st.tuples(st.just("slice"), i, i, st.integers(0, 5)).map(list),
         st.tuples(st.just("orphan"), i).map(list),
+        st.tuples(st.just("oob_write"), i, i).map(list),
         st.tuples(st.just("dump"), st.sampled_from(["xyz", "mol2"])).map(list),
         st.tuples(st.just("serialise"), st.sampled_from(["codec", "pickle", "library"]), st.booleans()).map(list),
     )
